@@ -114,6 +114,12 @@ def run(ctx, res):
                 res.add_violation("shape:targets", f"result columns {list(out.columns)[:5]}.. differ from targets", dict(kind="shape", date=impl.iso(o)), True)
         if len(res.samples) < 4:
             res.samples.append(dict(unit="target subsets", date=impl.iso(o), rows=len(df), nodes=len(nodes), example_subset=rnd.sample(nodes, 3)))
+    # U7: the concrete Coq engine (Table.run_table) vs the implementation, every computed column
+    import u7_engine
+
+    u7_dates = [impl.ordinal(x) for x in (["2024-01-01", "2019-01-01"] if ctx.tier == "quick" else
+                                           ["2024-01-01", "2019-01-01", "2015-01-01", "2021-07-01", "2023-07-01", "2017-07-01", "2022-10-01", "2026-01-01"])]
+    u7_engine.run_u7(ctx, res, u7_dates, 2 if ctx.tier == "quick" else 4)
     res.evaluations += stats["base_runs"] + stats["subset_runs"] + stats["extra_column_runs"] + stats["option_runs"]
     res.distinct += stats["subset_runs"] + stats["extra_column_runs"] + stats["option_runs"]
     res.extra["engine"] = stats
@@ -121,7 +127,10 @@ def run(ctx, res):
                 "index), then random target subsets of size 1-6 (each requested column must be bit-identical to the all-nodes run, the "
                 "result must have exactly the requested columns, one row per input row, same index), a run with five additional unused "
                 "columns whose names look like time-unit / group / id columns, debug=True, check_minimal_specification='warn'. "
-                "distinct = distinct (date, target set / option) runs.")
+                "U7: Table.run_table — Engine.run instantiated with the regenerated rule ASTs, the model environment, the real loader's graph, "
+                "numpy.vectorize with declared dtypes, rounding, aggregation, id builders, unit conversion — evaluated inside Coq on the same small "
+                "populations and compared with the implementation on EVERY computed column of the default graph (dtype, values 1e-9, ids exactly); "
+                "only array-level / untranslatable rules are supplied as data. distinct = distinct (date, target set / option) runs + U7 columns.")
 
 
 def replay(payload):
